@@ -79,6 +79,36 @@ def gates_dominate_effects(prog, an, rep):
                 f.where(n), 'statement reaching %s can run without %s '
                 'having returned normally' % (hit.rpartition('.')[2], gname),
                 path=c.describe_path(path))
+    # a declined pull request only ever reaches the cleanup routine
+    not_declined = an.branch_nodes(
+        f, lambda e: isinstance(e, ast.Compare) and
+        src(e.left).endswith('pull_request.status') and
+        isinstance(e.ops[0], ast.Eq) and
+        isinstance(e.comparators[0], ast.Constant) and
+        e.comparators[0].value == 'DECLINED', False) + an.branch_nodes(
+        f, lambda e: isinstance(e, ast.Compare) and
+        src(e.left).endswith('pull_request.status') and
+        isinstance(e.ops[0], ast.NotEq) and
+        isinstance(e.comparators[0], ast.Constant) and
+        e.comparators[0].value == 'DECLINED', True)
+    hd = Spec.func(GWF + '.handle_declined_pull_request')
+    for n, hit in targets:
+        if any(isinstance(x, ast.Call) and an.call_matches(f, x, hd)
+               for x in ast.walk(n.ast)):
+            continue
+        if hit in common.CLONE:
+            continue
+        rep.evaluated()
+        ok, path = c.must_pass(not_declined, n.id)
+        if not c.is_reachable(n.id):
+            ok = True
+        rep.check(ok and bool(not_declined), 'C12.MPT.declined-is-final',
+                  '%s: a DECLINED pull request never reaches `%s`' % (
+                      f.qname, src(n.ast)[:40].replace('\n', ' ')),
+                  f.where(n), 'a declined pull request can continue into '
+                  'the merge workflow (the cleanup routine returned '
+                  'instead of ending the job, or the status test moved)',
+                  path=c.describe_path(path))
     # unhandled pull requests are not even greeted
     mpt(an, rep, 'C12.MPT.no-comment-before-early-checks', f,
         Spec.func(GWF + '.send_greetings'), [gate_specs['early_checks']],
